@@ -24,6 +24,7 @@ import OapiVerif.Model.Form
 import OapiVerif.Model.TypeDedup
 import OapiVerif.Model.Bodies
 import OapiVerif.Model.RespDefs
+import OapiVerif.Model.FieldTags
 /-!
 Line-protocol driver: one JSON object per line in, one per line out.
 `{"fn": <name>, ...}` ↦ `{"ok": <result>}` or `{"err": "bad-op"}` (never a default).
@@ -399,6 +400,19 @@ def respDefsD (j : Json) : Except String Json := do
   let nums (l : List Nat) : Json := Json.arr (l.map fun (c : Nat) => Json.num (JsonNumber.fromNat c)).toArray
   pure (Json.arr ((RespDefs.respDefs rs).map fun o => Json.arr #[nums o.code, nums (o.ref.getD [])]).toArray)
 
+/-- `GenFieldsFromProperties`, the struct tag of one member. Optional booleans travel as 0 (absent) / 1 (false) / 2 (true). -/
+def fieldTagsD (j : Json) : Except String Json := do
+  let name ← j.getObjValAs? (Array Nat) "name"
+  let b (k : String) : Except String Bool := j.getObjValAs? Bool k
+  let ob (k : String) : Except String (Option Bool) := do
+    let n ← j.getObjValAs? Nat k
+    pure (if n == 0 then none else some (n == 2))
+  let ex ← j.getObjValAs? (Array (Array (Array Nat))) "extra"
+  let p : FieldTags.P := ⟨name.toList, ← b "required", ← b "readOnly", ← b "writeOnly", ← b "nullable", ← b "needsForm",
+    ← ob "xOmitEmpty", ← ob "jsonIgnore", ex.toList.map fun r => (r[0]!.toList, r[1]!.toList)⟩
+  let o : FieldTags.Opts := ⟨← b "disableReqRO", ← b "nullableType"⟩
+  pure (Json.arr ((FieldTags.render (FieldTags.fieldTags o p)).map fun (c : Nat) => Json.num (JsonNumber.fromNat c)).toArray)
+
 /-- `constructImportMapping`: [[document bytes, package path bytes]] ↦ [[document, name, path]] -/
 def importMapD (j : Json) : Except String Json := do
   let a ← j.getObjValAs? (Array (Array (Array Nat))) "mapping"
@@ -686,6 +700,7 @@ def dispatch (fn : String) (j : Json) : Except String Json :=
   | "importMap" => importMapD j
   | "bodyDefs" => bodyDefsD j
   | "respDefs" => respDefsD j
+  | "fieldTags" => fieldTagsD j
   | "schemaKeys" => schemaKeysD j
   | "comment" => commentD j
   | "commentSpaces" => commentSpacesD j
